@@ -218,16 +218,20 @@ class DtcDop(DopBase):
 
         internal_trouble_code = int(self.compu_method.convert_physical_to_internal(trouble_code))
 
+        # the TROUBLE-CODE of a DTC is the physical value (the decoder
+        # converts the coded value before it looks up the DTC), so
+        # the described DTCs must be compared with the physical
+        # trouble code, not with the coded value
         found = False
         for dtc in self.dtcs:
-            if internal_trouble_code == dtc.trouble_code:
+            if trouble_code == dtc.trouble_code:
                 found = True
                 break
 
         if not found:
             odxraise(
                 f"Unknown diagnostic trouble code {physical_value!r} "
-                f"(0x{internal_trouble_code: 06x}) specified", EncodeError)
+                f"(0x{trouble_code:06x}) specified", EncodeError)
 
         self.diag_coded_type.encode_into_pdu(internal_trouble_code, encode_state)
 
